@@ -11,7 +11,7 @@ from sa.flow import subterms
 from sa.model import AnalysisError, norm, parent, walk_no_nested
 from sa.xsd import CType, Schema, included, show_re, symbols
 
-from .common import callers_of, commands, prov, reach_from
+from .common import atomic_deps, callers_of, commands, lazy_iterable, prov, reach_from
 from .xmlcommon import documents, dyn_tag_attr, format_domain, ordered_expr, resolve_local, sorted_by_attr, sorted_source, writers
 
 
@@ -22,14 +22,20 @@ class Ctx:
         self.path = []
 
 
-def nonempty_guard(guards, it) -> bool:
-    t = norm(it)
+def nonempty_guard(guards, it, p=None, f=None, note=None) -> bool:
+    t = norm(it).replace('"', "'")
     for g in guards:
-        if not g.polarity:
-            continue
-        s = norm(g.test)
-        if s in (t, f"len({t}) > 0", f"len({t}) != 0", f"len({t}) >= 1", f"0 < len({t})", f"bool({t})"):
+        atoms = atomic_deps(g.test, "T" if g.polarity else "F")
+        if any(a in ((f"len({t}) > 0", "T"), (f"len({t}) == 0", "F"), (f"len({t}) >= 1", "T"), (f"0 < len({t})", "T"), (f"len({t}) < 1", "F"), (f"len({t}) <= 0", "F"), (f"0 == len({t})", "F")) for a in atoms):
             return True
+        s = norm(g.test)
+        if any(a in ((t, "T"), (f"bool({t})", "T")) for a in atoms):
+            # a truth test establishes non-emptiness for sized containers only
+            lazy = lazy_iterable(p, f, it) if p is not None and f is not None else None
+            if lazy is None:
+                return True
+            if note is not None:
+                note(f"the truth test `{s}` at {f.loc(g.test)} does not establish that `{t}` yields anything: it can be a lazy iterator ({lazy}), which is always true")
     return False
 
 
@@ -149,7 +155,7 @@ def to_regex(cx: Ctx, items, guards, distinct_ok):
                     out.append(("star", ("alt", [("sym", d) for d in dom])))
             else:
                 inner = to_regex(cx, it.items, guards, distinct_ok)
-                out.append(("plus", inner) if nonempty_guard(guards, it.loop.iter) or getattr(it, "nonempty", False) else ("star", inner))
+                out.append(("plus", inner) if nonempty_guard(guards, it.loop.iter, cx.p, it.func, cx.report.note if hasattr(cx.report, "note") else None) or getattr(it, "nonempty", False) else ("star", inner))
         else:
             raise AnalysisError(f"unexpected item in element template: {it!r}")
     return ("seq", out)
